@@ -5,7 +5,7 @@ PKGCORE_EBD_PID=${BASHPID}
 # echo'ing to the fd yourself. This allows us to move the open fd's w/out
 # issues down the line.
 __ebd_read_line_nonfatal() {
-	read -u ${PKGCORE_EBD_READ_FD} $1
+	read -r -u ${PKGCORE_EBD_READ_FD} $1
 }
 
 __ebd_read_line() {
@@ -18,7 +18,7 @@ __ebd_read_line() {
 # Read a line into an array using a bell char as a delimiter since the null char
 # can't be assigned to variables.
 __ebd_read_array() {
-	IFS=$'\07' read -u ${PKGCORE_EBD_READ_FD} -a $1
+	IFS=$'\07' read -r -u ${PKGCORE_EBD_READ_FD} -a $1
 	[[ $? -ne 0 ]] && \
 		die "coms error in ${PKGCORE_EBD_PID}, read_array $@ failed"
 }
